@@ -9,6 +9,8 @@ def job(j):
     p, form = j['p'], j['form']
     if form == 'pop':
         return nm.compile_circuit(nm.build_population(p['prog']), p['sv'], True)
+    if form == 'pop_twice':
+        return nm.compile_circuit_twice(nm.build_population(p['prog']), p['sv'], True)
     if form == 'matrix':
         return nm.compile_circuit(nm.build_explicit_from_matrix(p['prog']), p['sv'], j['vec'])
     return nm.compile_prog(dict(nodes=p['prog']['nodes'], edges=p['prog']['edges']), p['sv'], j['vec'])
@@ -31,6 +33,8 @@ def run(ctx):
     for p in progs:
         cpls = {c['cpl'] for c in p['pop']['conns']}
         jobs.append(dict(p=p, form='pop', vec=True))
+        if len(jobs) % 5 == 0:
+            jobs.append(dict(p=p, form='pop_twice', vec=True))
         if 'diff' not in cpls and 'pre2' not in cpls and 'pre6' not in cpls:
             jobs.append(dict(p=p, form='matrix', vec=True))
             jobs.append(dict(p=p, form='matrix', vec=False))
@@ -68,7 +72,7 @@ def classify(ctx, j, o, exp):
     pops = j['p']['pop']['pops']
     conns = j['p']['pop']['conns']
     # known finding D27: Connectivity onto a population with a single unit fails loudly at call time
-    if j['form'] == 'pop' and o.get('exc') in ('ValueError', 'IndexError') and ctx.open_finding('D27') and \
+    if j['form'] in ('pop', 'pop_twice') and o.get('exc') in ('ValueError', 'IndexError') and ctx.open_finding('D27') and \
             any(pops[c['tp'] - 1]['n'] == 1 or pops[c['sp'] - 1]['n'] == 1 for c in conns):
         ctx.known_hit('D27', dict(case=j['p']['pop'], observed=o.get('msg')))
         return 'known'
